@@ -285,7 +285,7 @@ def make_work(rng, n, per=4):
     work = []
     for i in range(n):
         tables = sqlgen.make_db(rng, max_rows=rng.choice([3, 6, 12]))
-        g = sqlgen.Gen(rng, tables, {"max_depth": 3, "grouping_sets": False, "quantified": False})
+        g = sqlgen.Gen(rng, tables, {"max_depth": 3, "grouping_sets": False, "quantified": False, "using": False})
         work.append({"id": "p%d" % i, "tables": tables, "queries": [g.query() for _ in range(per)]})
     return work
 
